@@ -9,7 +9,7 @@ verus! {
 //@include prelude/std_specs.rs
 //@include prelude/provider.rs
 
-/*@type file=src/eeprom/mod.rs name=EepromRange subst="<P>=>;P=>Prov" @*/
+/*@type file=src/eeprom/mod.rs name=EepromRange subst="<P>=>@@P=>Prov" @*/
 
 impl EepromRange {
     /// abstract position / window
@@ -19,8 +19,8 @@ impl EepromRange {
     requires reader.wf()
     ensures
         r.reader == reader,
-        r.byte_pos as int == 2 * start_word,
-        r.end as int == 2 * start_word + 2 * len_words,
+        r.byte_pos as int == (if 2 * start_word > 0xffff { 0xffff } else { 2 * start_word }),
+        r.end as int == (if r.byte_pos + 2 * len_words > 0xffff { 0xffff } else { r.byte_pos + 2 * len_words }),
 @*/
 
 /*@fn file=src/eeprom/mod.rs impl="impl<P> EepromRange<P>" name=skip_ahead_bytes props=C12,C13
@@ -38,7 +38,9 @@ impl EepromRange {
         final(self).reader.mem_eq(&old(self).reader),
         final(self).end == old(self).end,
         r is Ok ==> final(self).byte_pos as int == old(self).byte_pos + 1
+                 && old(self).byte_pos < old(self).end
                  && r->Ok_0 == old(self).reader.byte(old(self).byte_pos as int),
+        r is Err ==> final(self).byte_pos == old(self).byte_pos,
 @*/
 
 /*@fn file=src/eeprom/mod.rs impl="impl<P> embedded_io_async::Read for EepromRange<P>" name=read subst="Self::Error=>Error" props=C12,C13 attr="#[verifier::loop_isolation(false)] #[verifier::allow_complex_invariants]"
